@@ -303,7 +303,7 @@ func (e *Enc) frameObligations(c *Contract, env *CEnv, rets []*Exit) {
 		}
 		pureCond = e.def("pureif", pc)
 		if c.ModAll {
-			mods = nil
+			mods = c.PureMods
 		}
 	} else if c.ModAll {
 		return
@@ -612,6 +612,9 @@ func (e *Enc) script(o *Obligation, withModel bool) string {
 	for i, l := range e.lines[:o.Prefix] {
 		if o.Cover && strings.HasPrefix(l, "(assert") && strings.Contains(l, "(forall ") {
 			continue // reachability guards are decided without the quantified frame facts (weaker assumptions)
+		}
+		if o.Skip[i] {
+			continue // staged invariants: not among the assumptions of this obligation
 		}
 		if i < o.LoopStart && e.memAxiom[i] {
 			continue // quantified facts about memory before the enclosing loop's havoc (weaker assumptions, still sound)
